@@ -549,3 +549,58 @@ func ruleConstantFormats(c *chk.Ctx) {
 		c.Undecided("PROV.format", nil, "format strings", 0, "no printf-style call found in the HTTP package")
 	}
 }
+
+// ruleEncoderOneOf: the member encoder writes at most one of the method,
+// result and error members (their writes are on mutually exclusive branches).
+func ruleEncoderOneOf(c *chk.Ctx) {
+	for f := range encoderFuncs(c) {
+		if _, isSlice := f.Signature.Recv().Type().Underlying().(*types.Slice); isSlice {
+			continue
+		}
+		blocks := map[string]*ssa.BasicBlock{}
+		ir.Calls(f, func(ci ssa.CallInstruction) {
+			if len(ci.Common().Args) < 2 {
+				return
+			}
+			if s, ok := constString(ci.Common().Args[1]); ok {
+				for _, k := range []string{"method", "result", "error"} {
+					if strings.Contains(s, `"`+k+`"`) {
+						blocks[k] = ci.Block()
+					}
+				}
+			}
+		})
+		ok := len(blocks) == 3
+		for a, ba := range blocks {
+			for b, bb := range blocks {
+				if a != b && (ba == bb || reachesWithout(ba, bb, nil)) {
+					ok = false
+				}
+			}
+		}
+		c.Check(ok, "TABLE.oneof", f, "exactly one of method / result / error", f.Pos(), "the three member writes are on mutually exclusive branches", "the encoder can write more than one of the method, result and error members into one message (or one of the three writes is missing)")
+	}
+}
+
+// ruleStopResultInvoked: every call of the client's stop function has its
+// returned function invoked (so the stop hook runs on every stopping path).
+func ruleStopResultInvoked(c *chk.Ctx) {
+	stop := stopFunc(c, "client")
+	if stop == nil {
+		return
+	}
+	for _, s := range c.P.Callers(stop) {
+		call, ok := s.Instr.(*ssa.Call)
+		if !ok {
+			c.Fail("HOOK.stop", s.Caller, "stop result invoked", s.Instr.Pos(), "the stop function is started with go/defer: its returned hook runner is lost")
+			continue
+		}
+		invoked := 0
+		for _, r := range *call.Referrers() {
+			if ci, ok := r.(ssa.CallInstruction); ok && ci.Common().Value == ssa.Value(call) {
+				invoked++
+			}
+		}
+		c.Check(invoked == 1, "HOOK.stop", s.Caller, "stop result invoked", call.Pos(), "the function returned by the stop function is invoked exactly once by this caller", fmt.Sprintf("the function returned by the stop function is invoked %d times by this caller: OnStop would be lost or repeated", invoked))
+	}
+}
